@@ -194,11 +194,15 @@ func VerifHarness_C18_MonitorSameIdentity() {
 // bucket choices: cheap (no floating-point solving) and covers p = 0 and p = 100
 func VerifHarness_C18_PercentileGrid() {
 	h := NewHistogram("h", nil)
-	vals := []float64{0.05, 0.7, 3, 40, 700, 20000}
+	vals := []float64{0.05, 0.7, 3, 40, 700, 20000, 0.000244140625, 1.5e-7}
 	n := verifIntRange("n", 1, 3)
+	sum := 0.0
 	for i := 0; i < n; i++ {
-		h.Observe(vals[verifIntRange("bucket", 0, len(vals)-1)])
+		v := vals[verifIntRange("bucket", 0, len(vals)-1)]
+		h.Observe(v)
+		sum += v
 	}
+	verifAssert(h.Sum() == sum, "C18: a histogram reports the exact sum of its observations")
 	grid := []float64{0, 1, 25, 50, 75, 90, 99, 99.9, 100}
 	prev := h.Percentile(grid[0])
 	for _, p := range grid[1:] {
